@@ -36,6 +36,11 @@ static uint64_t sm64(uint64_t *s) { uint64_t z = (*s += 0x9E3779B97F4A7C15ull); 
 void sched_configure(int mode, int P, uint64_t seed, int strategy, int param, int delay_us)
 {
     s_mode = mode; s_P = P; s_seed = seed; s_strategy = strategy; s_param = param; s_delay_us = delay_us;
+#ifdef HX_NOHOOK
+    /* library built without the hook guard: no events arrive, so the token-passing controller cannot be used (a token holder
+       would spin for ever on a column owned by a worker that waits for the token); all runs are free-running */
+    if (s_mode == SCHED_CONTROLLED) s_mode = SCHED_FREE;
+#endif
 }
 
 /* ------------------------------------------------------------------ monitor state */
